@@ -27,12 +27,21 @@ META = {
     "bounds": {
         "quick": {"L": "2-3", "phys dim": 2, "MPO bond": 2, "MPS bond": 2, "variants": "DMRG1 and DMRG2, one sweep each direction",
                   "entries": "complex (conj-pair) symbols for the stub-free families, real symbols where LAPACK/eigensolver stubs are involved",
-                  "sweep_energy": "L = 2 mandatory (L = 3, 4 in the thorough tier, not mandatory: certificates may exceed the budget)"},
+                  "sweep_energy": "L = 2 mandatory (L = 3, 4 in the thorough tier, not mandatory: certificates may exceed the budget)",
+                  "truncated_update_energy": "DMRG2, L = 2-3, bond cap 1 < phys dim 2 (every split truncates), cutoff 0, both directions, via sweep() and via solve(); real-symmetric H (eigensolver / svd contracts)",
+                  "solve_presweep_state": "complex H and state, L = 2-3, initial bond 1, bond schedule 2,3,4, sequences R / RL / LR / RRL, three sweeps, bond_expand_rand_strength = 0",
+                  "solve_resume_history": "three consecutive solve() calls (max_sweeps 3, 2, 2) on one object, seq1 in R/RL/LR/RRL x seq2 in R/L/RL/LR, every convergence / max_sweeps ending (symbolic sweep energies), DMRG1 and DMRG2",
+                  "sweep_chain": "L = 2, sweep + opposite sweep with canonize=False, orders RL and LR (DMRG2 cells not mandatory)",
+                  "canonize_mirrors_bra / local_update_mirrors_bra": "complex H and state, L = 2-3, bond 2, both directions"},
         "thorough": {"L": "2-4", "MPO bond": "1-2"},
     },
     "outside": ["convergence to the exact ground state, eigensolver accuracy (the eigensolver is replaced by its contract)",
                 "monotone decrease across updates (needs the variational inequality lambda <= <w|H_eff|w> of the eigensolver: an inequality contract; only equalities are certified here)",
-                "periodic boundary conditions (transfer-matrix compression, pseudo-orthogonality heuristics)", "DMRGX", "truncation error effects (cutoff=0 in certified runs)"],
+                "periodic boundary conditions (transfer-matrix compression, pseudo-orthogonality heuristics)", "DMRGX", "truncation error effects (cutoff=0 in certified runs)",
+                "truncation by a cutoff on symbolic singular values (only hard max_bond truncation is certified: truncated_update_energy)",
+                "symbolic proof of the normalisation after a truncating 2-site update (numeric-only goal of truncated_update_energy; the "
+                "missing renormalisation with open boundaries was a genuine defect, fixed)",
+                "random fill of expanded bonds (bond_expand_rand_strength > 0: random draws are not modelled symbolically)"],
     "assumptions": ["local eigensolver returns an eigenpair of the matrix / operator it is given (contract stub)",
                     "LAPACK qr/svd contracts (stubs)"],
 }
@@ -317,7 +326,13 @@ def sweep_energy(mk, cls, L, direction):
     mk.same("one snapshot per local update", len(snaps), (L - 1) if cls == "DMRG2" else L)
     for i, (loc_en, tot_en), v in snaps:
         n2 = norm2(v)
-        mk.eq(f"update at {i}: state normalised", n2, 1)
+        if cls == "DMRG2" and mk.sym:
+            # since fix a15116ce the two-site update divides by the norm of the tensor holding the singular values: the
+            # normalisation goal then needs (isometry contract) x (degree-4 monomials) closure rows, which the certificate
+            # search does not reach (tried: no certificate in 70 s / timeout); decided in the numeric cross-run
+            mk.note("numeric-only: DMRG2 'state normalised' goal (explicit renormalisation by a tensor norm)")
+        else:
+            mk.eq(f"update at {i}: state normalised", n2, 1)
         mk.eq(f"update at {i}: total energy == <psi|H psi>", tot_en, expval(Hd, v))
         mk.eq(f"update at {i}: local energy == <psi|H psi>", loc_en, expval(Hd, v))
     mk.eq("sweep returns the last total energy", last, snaps[-1][1][1])
@@ -362,3 +377,269 @@ def numeric_ground_state(mk, cls, L):
     mk.eq("energy == dense <s|A|s>", (v.conj() @ A @ v) / (v.conj() @ v), e, tol=1e-6)
     mk.same("energy not below the exact ground energy", bool(np.real(e) >= ev[0] - 1e-8), True)
     mk.eq("converged energy == exact ground energy", np.real(e), ev[0], tol=1e-6)
+
+
+def _bra_is_conj_ket(mk, dm, where):
+    """tensor by tensor: same shape, bra data == conj(ket data), and the energy network
+    (which views these tensors) denotes <k|H k> of the held ket"""
+    for i in range(dm.L):
+        tk, tb = dm._k[i], dm._b[i]
+        mk.same(f"{where}: bra / ket tensor {i} have the same shape", tuple(tb.shape), tuple(tk.shape))
+        mk.eq(f"{where}: bra tensor {i} == conj(ket tensor {i})", np.asarray(tb.data), _conj(np.asarray(tk.data)))
+
+
+_PS = [{"cls": c, "L": L, "seq": s, "rand": r}
+       for c, L, s, r in [("DMRG1", 2, "R", 0.0), ("DMRG1", 2, "RL", 0.0), ("DMRG1", 2, "LR", 0.0),
+                          ("DMRG1", 3, "RL", 0.0), ("DMRG1", 3, "LR", 0.0), ("DMRG1", 3, "RRL", 0.0),
+                          ("DMRG2", 2, "RL", 0.0), ("DMRG2", 3, "LR", 0.0)]]
+
+
+@obligation(PROP, params=_PS, timeout_s=300)
+def solve_presweep_state(mk, cls, L, seq, rand):
+    """(6) what solve() itself does to the held ket / bra before handing them to a sweep (1-site variant:
+    bond expansion to the scheduled cap, mirrored into the bra), for genuinely complex states and every
+    sweep of a growing bond schedule: at the entry of EVERY sweep the bra is the conjugate of the ket
+    tensor by tensor, the energy network denotes <k|H k> of the held ket, the bonds have the scheduled
+    size, and (rand_strength = 0) the expansion has not changed the state vector.  The sweep is replaced
+    by a probe (its own behaviour is families (3)/(7))."""
+    mk.encodes(qd.DMRG.solve, c1.TensorNetwork1DFlat.expand_bond_dimension)
+    H = sym_mpo(mk, L, 2, "cplx")
+    k = sym_mps(mk, L, 1, "cplx")
+    bds = [2, 3, 4]
+    dm = getattr(qtn, cls)(H, bond_dims=bds, p0=k)
+    dm.opts["bond_expand_rand_strength"] = rand
+    Hd, v0 = dense_op(H), dense_vec(k)
+    seen = []
+
+    def sweep(direction, canonize=True, max_bond=None, **kw):
+        j = len(seen)
+        where = f"entry of sweep {j} ({direction})"
+        _bra_is_conj_ket(mk, dm, where)
+        v = dense_vec(dm._k)
+        mk.eq(f"{where}: TN_energy ^ all == <k|H k> of the held ket", dm.TN_energy ^ all, expval(Hd, v))
+        if cls == "DMRG1":
+            mk.same(f"{where}: every bond expanded to the scheduled cap",
+                    [dm._k.bond_size(i, i + 1) for i in range(L - 1)], [max_bond] * (L - 1))
+        if rand == 0.0:
+            mk.eq(f"{where}: the state vector is the initial one (zero padding)", v, v0)
+        seen.append(direction)
+        return -1.0 * j
+
+    dm.sweep = sweep
+    dm.solve(tol=1e-3, sweep_sequence=seq, max_sweeps=3)
+    mk.same("three sweeps ran with the directions of the sequence", seen, [seq[j % len(seq)] for j in range(3)])
+
+
+_RS = [{"cls": c, "seq1": a, "seq2": b} for c in ("DMRG1", "DMRG2")
+       for a in ("RL", "LR", "RRL", "R") for b in ("R", "L", "RL", "LR")]
+
+
+@obligation(PROP, params=_RS, max_paths=400)
+def solve_resume_history(mk, cls, seq1, seq2):
+    """(5b) call history of solve(): three consecutive solve() calls on one object (sequences seq1, seq2,
+    seq1 again; each call may end by convergence after any sweep or by max_sweeps - the sweep energies are
+    symbolic so every ending is a path).  A sweep may skip the re-canonisation ONLY if the sweep that
+    actually ran immediately before it on this object went the opposite way (that is what leaves the
+    state in the canonical form the sweep needs - established by `sweep_chain`); within a call the
+    flag is exactly that; the very first sweep always canonises; schedules, `energies` and `energy`
+    follow the global sweep count."""
+    mk.encodes(qd.DMRG.solve, qd.DMRG._check_convergence, qd.DMRG._set_bond_dim_seq)
+    rng = np.random.default_rng(5)
+    A = rng.normal(size=(4, 4))
+    H = qtn.MatrixProductOperator.from_dense(A + A.T, dims=[2, 2])
+    bds = [2, 3, 4, 5, 6, 7]
+    dm = getattr(qtn, cls)(H, bond_dims=bds, cutoffs=1e-9)
+    calls = []
+    es = [mk.sreal(f"e{j}", -4, 4) for j in range(8)]
+
+    def sweep(direction, canonize=True, max_bond=None, cutoff=None, **kw):
+        calls.append((direction, canonize, max_bond))
+        return es[len(calls) - 1]
+
+    dm.sweep = sweep
+    tol = mk.sreal("tol", 0, 1)
+    mk.assume(tol > 0)
+    g0 = 0
+    for c, (seq, ms) in enumerate(((seq1, 3), (seq2, 2), (seq1, 2))):
+        conv = dm.solve(tol=tol, sweep_sequence=seq, max_sweeps=ms)
+        n = len(calls) - g0
+        mk.same(f"call {c}: between one and max_sweeps sweeps", 1 <= n <= ms, True)
+        for j in range(n):
+            g = g0 + j
+            dr, can, mb = calls[g]
+            mk.same(f"call {c} sweep {j}: direction from the sequence", dr, seq[j % len(seq)])
+            mk.same(f"call {c} sweep {j}: bond cap continues the schedule", mb, bds[min(g, len(bds) - 1)])
+            opposite = g > 0 and {dr, calls[g - 1][0]} == {"L", "R"}
+            if not can:
+                mk.same(f"call {c} sweep {j}: canonisation skipped only after a sweep that actually ran the other way",
+                        opposite, True)
+            if j > 0:
+                mk.same(f"call {c} sweep {j}: canonize unless the previous sweep ran the other way", can, not opposite)
+            if g == 0:
+                mk.same("the first sweep ever canonises", can, True)
+        g1 = len(calls)
+        mk.same(f"call {c}: one recorded energy per sweep so far", len(dm.energies), g1)
+        mk.check(dm.energy == es[g1 - 1], f"call {c}: energy is that of the last sweep run")
+        if g1 >= 2:
+            dl = es[g1 - 1] - es[g1 - 2]
+            mk.check(((dl < tol) & (-dl < tol)) == bool(conv), f"call {c}: returned flag == |E_n - E_(n-1)| < tol")
+        if n < ms:
+            mk.same(f"call {c}: stopped early only when converged", bool(conv), True)
+        g0 = g1
+
+
+_TR = [{"L": L, "direction": dr, "cap": 1, "via": via} for L in (2, 3) for dr in ("R", "L") for via in ("sweep", "solve")]
+
+
+@obligation(PROP, params=_TR, rounds=2, timeout_s=400)
+def truncated_update_energy(mk, L, direction, cap, via):
+    """(3b) two-site updates whose SVD split REALLY truncates (bond cap 1 < phys dim 2, cutoff 0): the
+    total energy reported after every update, the value the sweep returns and `dmrg.energy` are the
+    energy <psi|H psi> of the state actually held after the truncated tensors were re-inserted - NOT the
+    pre-truncation local eigenvalue - and that state is normalised (the library did not renormalise after a
+    hard max_bond truncation with open boundaries until the fix recorded in known_findings.txt).  Run through
+    `sweep` directly and through `solve`."""
+    mk.encodes(qd.DMRG.sweep, qd.DMRG.solve, qd.DMRG._update_local_state, qd.DMRG._update_local_state_2site,
+               qd.DMRG.form_local_ops, qd.MovingEnvironment.move_to, qd.parse_2site_inds_dims)
+    H = sym_mpo(mk, L, 2, "real", herm=True)
+    k = sym_mps(mk, L, 2, "real")
+    dm = qtn.DMRG2(H, bond_dims=cap, cutoffs=0.0, p0=k)
+    install_eig_contract(mk, dm)
+    Hd = dense_op(H)
+    snaps = []
+    orig = dm._update_local_state
+
+    def wrapped(i, **kw):
+        r = orig(i, **kw)
+        snaps.append((i, r, dense_vec(dm._k), dm._k.max_bond()))
+        return r
+
+    dm._update_local_state = wrapped
+    if via == "sweep":
+        last = dm.sweep(direction, canonize=True, max_bond=cap, cutoff=0.0)
+    else:
+        dm.solve(tol=1e-6, sweep_sequence=direction, max_sweeps=1)
+        last = dm.energy
+    mk.same("one snapshot per local update", len(snaps), L - 1)
+    for i, (loc_en, tot_en), v, mb in snaps:
+        mk.eq(f"update at {i}: reported total energy == <psi|H psi> of the held (truncated) state", tot_en, expval(Hd, v))
+        # (the statement speaks of the NORMALISED state it returns: held after the fix recorded in known_findings.txt)
+        # numeric-only: the norm is a square root of a sum over the truncated tensor, which the linear certificate search
+        # does not resolve (tried: no certificate); the energy goals above are certified symbolically
+        if not mk.sym:
+            mk.eq(f"[numeric-only] update at {i}: the held (truncated) state is normalised", expval(ref.eye(len(v), like=Hd), v), 1)
+    mk.same("bond cap respected after the last update", snaps[-1][3] <= cap, True)
+    mk.same("one recorded sweep with one total / local energy per update",
+            (len(dm.total_energies), len(dm.total_energies[-1]), len(dm.local_energies[-1])), (1, L - 1, L - 1))
+    for (i, _, v, _), rec in zip(snaps, dm.total_energies[-1]):
+        mk.eq(f"dmrg.total_energies entry of the update at {i} == <psi|H psi> of the state held then", rec, expval(Hd, v))
+    mk.eq("reported sweep / solve energy == the last total energy", last, snaps[-1][1][1])
+    mk.eq("reported sweep / solve energy == <psi|H psi> of the state held", last, expval(Hd, snaps[-1][2]))
+    st = dm.state
+    mk.eq("dmrg.state: <s|H.apply(s)> == reported energy", st.H @ H.apply(st), last)
+    mk.eq("TN_energy ^ all == reported energy", dm.TN_energy ^ all, last)
+
+
+_SC = [{"cls": c, "L": 2, "order": o, "_mandatory": c == "DMRG1"} for c in ("DMRG1", "DMRG2") for o in ("RL", "LR")]
+
+
+@obligation(PROP, params=_SC, rounds=2, timeout_s=600, wall_s=500, max_rows=80000, solver_timeout_ms=120000)
+def sweep_chain(mk, cls, L, order):
+    """(3c) a sweep followed by a sweep in the OPPOSITE direction with canonize=False (what solve() does for
+    alternating sequences): the first sweep leaves the state in the canonical form the second one needs,
+    so after every update of the second sweep too the reported energies are <psi|H psi> of the updated,
+    normalised state."""
+    mk.encodes(qd.DMRG.sweep, qd.DMRG._update_local_state, qd.DMRG._update_local_state_1site,
+               qd.DMRG._update_local_state_2site, qd.DMRG._canonize_after_1site_update)
+    H = sym_mpo(mk, L, 2, "real", herm=True)
+    k = sym_mps(mk, L, 2, "real")
+    dm = getattr(qtn, cls)(H, bond_dims=2, p0=k)
+    install_eig_contract(mk, dm)
+    Hd = dense_op(H)
+    snaps = []
+    orig = dm._update_local_state
+
+    def wrapped(i, **kw):
+        r = orig(i, **kw)
+        snaps.append((i, r, dense_vec(dm._k)))
+        return r
+
+    dm._update_local_state = wrapped
+    kw = {"max_bond": 4, "cutoff": 0.0} if cls == "DMRG2" else {}
+    dm.sweep(order[0], canonize=True, **kw)
+    n1 = len(snaps)
+    last = dm.sweep(order[1], canonize=False, **kw)
+    mk.same("second sweep: one snapshot per local update", len(snaps) - n1, (L - 1) if cls == "DMRG2" else L)
+    for i, (loc_en, tot_en), v in snaps[n1:]:
+        if cls == "DMRG2" and mk.sym:
+            mk.note("numeric-only: DMRG2 'state normalised' goal (explicit renormalisation by a tensor norm, see sweep_energy)")
+        else:
+            mk.eq(f"second sweep, update at {i}: state normalised", norm2(v), 1)
+        mk.eq(f"second sweep, update at {i}: total energy == <psi|H psi>", tot_en, expval(Hd, v))
+        mk.eq(f"second sweep, update at {i}: local energy == <psi|H psi>", loc_en, expval(Hd, v))
+    mk.eq("second sweep returns the last total energy", last, snaps[-1][1][1])
+
+
+_CM = [{"L": L, "op": op} for L in (2, 3) for op in ("right_canonize", "left_canonize", "after_update_right", "after_update_left")]
+
+
+@obligation(PROP, params=_CM, rounds=2, timeout_s=300)
+def canonize_mirrors_bra(mk, L, op):
+    """(6b) the other in-place state manipulations DMRG performs between local solves - the canonisation
+    at the start of a sweep and the one-site shift of the orthogonality centre after every 1-site update -
+    are mirrored into the bra as the CONJUGATE, for genuinely complex states: afterwards bra == conj(ket)
+    tensor by tensor and the energy network denotes <k|H k> of the held ket."""
+    mk.encodes(qd.DMRG._canonize_after_1site_update, c1.TensorNetwork1DFlat.left_canonize,
+               c1.TensorNetwork1DFlat.right_canonize, c1.TensorNetwork1DFlat.left_canonize_site,
+               c1.TensorNetwork1DFlat.right_canonize_site)
+    H = sym_mpo(mk, L, 2, "cplx")
+    k = sym_mps(mk, L, 2, "cplx")
+    dm = qtn.DMRG1(H, bond_dims=2, p0=k)
+    Hd = dense_op(H)
+    if op == "right_canonize":
+        dm._k.right_canonize(bra=dm._b)
+        steps = ["right_canonize"]
+    elif op == "left_canonize":
+        dm._k.left_canonize(bra=dm._b)
+        steps = ["left_canonize"]
+    else:
+        direction = op.rsplit("_", 1)[1]
+        steps = list(range(L)) if direction == "right" else list(range(L - 1, -1, -1))
+    for s in steps:
+        if not isinstance(s, str):
+            dm._canonize_after_1site_update(direction, s)
+        where = f"after {op} step {s}"
+        _bra_is_conj_ket(mk, dm, where)
+        mk.eq(f"{where}: TN_energy ^ all == <k|H k> of the held ket", dm.TN_energy ^ all, expval(Hd, dense_vec(dm._k)))
+
+
+_LM = [{"cls": c, "L": L, "direction": dr} for c in ("DMRG1", "DMRG2") for L in (2, 3) for dr in ("right", "left")]
+
+
+@obligation(PROP, params=_LM, rounds=2, timeout_s=300)
+def local_update_mirrors_bra(mk, cls, L, direction):
+    """(6c) the local update itself, with the eigensolver returning an ARBITRARY complex block (no
+    contract needed: this is about re-insertion): the new block goes into the ket and its conjugate
+    into the bra (2-site: both split factors), so bra == conj(ket) tensor by tensor, the energy
+    network denotes <k|H k> of the held ket, and the reported total energy is that value."""
+    mk.encodes(qd.DMRG._update_local_state, qd.DMRG._update_local_state_1site, qd.DMRG._update_local_state_2site,
+               qd.DMRG._canonize_after_1site_update, qd.parse_2site_inds_dims)
+    H = sym_mpo(mk, L, 2, "cplx")
+    k = sym_mps(mk, L, 2, "cplx")
+    dm = getattr(qtn, cls)(H, bond_dims=2, p0=k)
+    bsz = 2 if cls == "DMRG2" else 1
+    Hd = dense_op(H)
+
+    def _eigs(A, B=None, v0=None):
+        n = np.asarray(v0).size
+        return np.array([mk.scalar("lam", "real")], dtype=object if mk.sym else float), _Vec(mk.array("Z", (n, 1), "cplx"))
+
+    dm._eigs = _eigs
+    dm.ME_eff_ham = qd.MovingEnvironment(dm.TN_energy, begin={"right": "left", "left": "right"}[direction], bsz=bsz)
+    site = 0 if direction == "right" else L - bsz
+    kw = {"max_bond": 4, "cutoff": 0.0} if bsz == 2 else {}
+    loc_en, tot_en = dm._update_local_state(site, direction=direction, **kw)
+    _bra_is_conj_ket(mk, dm, "after the update")
+    want = expval(Hd, dense_vec(dm._k))
+    mk.eq("TN_energy ^ all == <k|H k> of the held ket", dm.TN_energy ^ all, want)
+    mk.eq("reported total energy == <k|H k> of the held ket", tot_en, want)
